@@ -74,6 +74,23 @@ static Target1D make_target(Rng& rng, int kind)
 	}
 	return T;
 }
+// The same law on an affinely mapped domain x = off + w t (narrow windows, windows far from the origin, huge windows): sampling is scale-free, so a
+// tolerance inside a sampler that is absolute, or relative to |x| instead of the width, shows up here (seeded changes C18-r2m1, C18-r3m3).
+// The ends map exactly (cdf 0 and 1 there by construction), interior points are resolved to 1e-16 off/w <= 1e-7 of the width.
+static Target1D affine_target(const Target1D& T, double off, double w)
+{
+	Target1D S = T;
+	S.name	   = T.name + " mapped to off + w t";
+	S.lo = off + w * T.lo, S.hi = off + w * T.hi;
+	double lo = T.lo, hi = T.hi, slo = S.lo, shi = S.hi;
+	auto back = [off, w, lo, hi](double x) { return std::min(std::max((x - off) / w, lo), hi); };
+	auto pdf = T.pdf;
+	auto cdf = T.cdf;
+	S.pdf = [pdf, back](double x) { return pdf(back(x)); };
+	S.cdf = [cdf, back, slo, shi](double x) { return x <= slo ? 0.0 : (x >= shi ? 1.0 : cdf(back(x))); };
+	return S;
+}
+static const double AFFINE_MENU[4][2] = {{0.0, 1e-9}, {1e9, 1.0}, {-3e8, 0.5}, {0.0, 1e6}};
 // Kolmogorov-Smirnov statistic sqrt(N) D against a continuous CDF
 static double ks_stat(std::vector<double>& xs, const std::function<double(double)>& cdf)
 {
@@ -388,7 +405,14 @@ static void case_law(Rng& rng, uint64_t index)
 		case 4:
 		case 5: {
 			Target1D T = make_target(rng, (int) (index / 10));
+			if((index / 12) % 2 == 1)
+			{
+				const double* m = AFFINE_MENU[(index / 24) % 4];
+				T = affine_target(T, m[0], m[1]);
+			}
 			size_t Ng  = N / 4;
+			if(which == 4 && (index / 12) % 2 == 1 && !ctx().is_asan())
+				Ng = 2 * N;	  // a tolerance of a tenth of the width distorts the law by D ~ 0.01-0.02 only: needs 2e5 samples to be seen at 3.3/sqrt(N)
 			xs.resize(Ng);
 			if(which == 4)
 			{
